@@ -425,6 +425,8 @@ class Norm:
             fb = fb["e"]
         self._fn_block = fb if isinstance(fb, dict) else None
         self._strip_early = set()
+        self._clock = 0
+        self.seq, self.seq_done, self.loops_at, self._loop_stack, self.guards_at = {}, {}, {}, [], {}
         self._loop_blocks = set()      # bodies of `for` loops: `continue` leaves exactly that block
         self._ret_blocks = set()      # blocks whose value is the value of the fn / closure: `return v` there is just the value v
         _mark_tail(fb, self._ret_blocks)
@@ -479,6 +481,26 @@ class Norm:
             self._bind_pat(p["p"], origin, path)
 
     def _index(self, n, depth, guards=()):
+        """source-order numbering around the structural indexing: an effect applies to a use only if it is finished before
+        the use starts, or if both sit in the same loop"""
+        if not isinstance(n, dict):
+            return
+        self._clock += 1
+        self.seq[id(n)] = self._clock
+        is_loop = n.get("k") == "Loop" or (n.get("k") == "Match" and n.get("src") == "ForLoopDesugar")
+        if is_loop:
+            self._loop_stack.append(id(n))
+        self.loops_at[id(n)] = tuple(self._loop_stack)
+        self.guards_at[id(n)] = guards
+        try:
+            self._index0(n, depth, guards)
+        finally:
+            if is_loop:
+                self._loop_stack.pop()
+            self._clock += 1
+            self.seq_done[id(n)] = self._clock
+
+    def _index0(self, n, depth, guards=()):
         if not isinstance(n, dict):
             return
         k = n.get("k")
@@ -659,11 +681,36 @@ class Norm:
                 self._memo = memo
         return _float(self._t(e), e is self.body.get("body"))
 
-    def local_term(self, lid):
+    def _applies(self, eff_node, use):
+        shared_loop = bool(set(self.loops_at.get(id(eff_node), ())) & set(self.loops_at.get(id(use), ())))
+        sd, su = self.seq_done.get(id(eff_node)), self.seq.get(id(use))
+        if sd is not None and su is not None and sd >= su and not shared_loop:
+            return False                     # the effect happens after the read
+        if not shared_loop:
+            # different branches of the same `if` / arms of the same `match` exclude each other
+            ge, gu = self.guards_at.get(id(eff_node), ()), self.guards_at.get(id(use), ())
+            for a, b in zip(ge, gu):
+                if a is b or a == b:
+                    continue
+                if a[0] == "if" and b[0] == "if" and a[1] is b[1] and a[2] != b[2]:
+                    return False
+                if a[0] == "arm" and b[0] == "arm" and a[1] is b[1] and a[2] != b[2]:
+                    return False
+                break
+        return True
+
+    def local_term(self, lid, at=None):
+        """term of a local; with `at` (the node that reads it) only the effects that can have happened before that read count"""
         if lid in self.syms:
             return ("sym", self.syms[lid])
-        if lid in self._memo:
-            return self._memo[lid]
+        all_effs = self.effects.get(lid, [])
+        if at is not None and all_effs:
+            sel = [x for x in all_effs if self._applies(x[0], at)]
+        else:
+            sel = list(all_effs)
+        mkey = lid if len(sel) == len(all_effs) else (lid, tuple(id(x[0]) for x in sel))
+        if mkey in self._memo:
+            return self._memo[mkey]
         if lid in self._busy:
             return ("sym", "<self>")
         rec = self.defs.get(lid)
@@ -686,13 +733,13 @@ class Norm:
             else:
                 base = ("opaque", o)
             t = self._project(base, path)
-            effs = [x for x in self.effects.get(lid, [])]
+            effs = sel
             if effs and (lid in self.mut or any(k in ("assign", "assignop") for _, k, _g in effs)):
                 et, inlined_any = self._effect_tuples(lid, effs)
                 t = ("mut", pat.get("name", "?"), t, et) if inlined_any else self._canon_mut(lid, ("mut", pat.get("name", "?"), t, et), effs, origin)
         finally:
             self._busy.discard(lid)
-        self._memo[lid] = t
+        self._memo[mkey] = t
         return t
 
     def _effect_tuples(self, lid, effs):
@@ -1210,7 +1257,7 @@ class Norm:
             return ("op", e["op"], [self._t(e["e"])])
         if k == "Path":
             if e.get("r") == "local":
-                return self.local_term(e["id"])
+                return self.local_term(e["id"], at=e)
             if e.get("dk") in ("Fn", "AssocFn") and e.get("path"):
                 eta = self._eta(e["path"], e)
                 if eta is not None:
